@@ -4257,12 +4257,20 @@ Box<ITV>::CC76_narrowing_assign(const T& y) {
     if (!x_i.lower_is_boundary_infinity()
         && !y_i.lower_is_boundary_infinity()
         && x_i.lower() != y_i.lower()) {
-      x_i.lower() = y_i.lower();
+      // Take the lower bound of `y_i' together with its openness.
+      ITV y_lower(y_i);
+      y_lower.upper_extend();
+      x_i.lower_extend();
+      x_i.intersect_assign(y_lower);
     }
     if (!x_i.upper_is_boundary_infinity()
         && !y_i.upper_is_boundary_infinity()
         && x_i.upper() != y_i.upper()) {
-      x_i.upper() = y_i.upper();
+      // Take the upper bound of `y_i' together with its openness.
+      ITV y_upper(y_i);
+      y_upper.lower_extend();
+      x_i.upper_extend();
+      x_i.intersect_assign(y_upper);
     }
   }
   PPL_ASSERT(OK());
